@@ -35,11 +35,73 @@ def min_nontrivial(tier):
     return 60 if tier == "quick" else 1200
 
 
+def one_class_only_case(rng):
+    """1..2 ordinal/categorical features built from exact counts so that each is informative for exactly one of the carved classes
+    (identical rates -> dropped) : every raw feature then keeps exactly one class column."""
+    c = gen.Case()
+    c.kind = "multiclass"
+    labels = gen.pick(rng, [[0, 1, 2], ["a", "b", "c"], [2, 10, 33]])
+    srt = sorted(labels, key=str)  # classes ordered by their string form; the first one is the reference class
+    nf = int(rng.integers(1, 3))
+    unit = 60
+    blocks = []
+    for j in range(nf):
+        informative = srt[1 + (j % 2)]  # alternate the class the feature speaks about
+        other = srt[2 - (j % 2)]
+        counts_inf = [10, 20, 30] if rng.random() < 0.5 else [30, 20, 10]
+        blocks.append((informative, other, counts_inf))
+    # rows: one block per modality triple; features are built independently on the same target by re-sorting rows per feature
+    mods = ["m_a", "k_b", "z_c"]
+    y = []
+    cols = {f"o{j}": [] for j in range(nf)}
+    # build the target from the first feature, then give the other feature the same structure through a permutation within classes
+    informative, other, counts_inf = blocks[0]
+    for mod, ci in zip(mods, counts_inf):
+        yy = [informative] * ci + [other] * 15 + [srt[0]] * (unit - ci - 15)
+        y += yy
+        cols["o0"] += [mod] * unit
+    y = np.array(y, dtype=object if isinstance(labels[0], str) else int)
+    if nf == 2:
+        # second feature: informative for the other carved class, flat for the first one
+        informative2, other2, counts2 = blocks[1]
+        col = np.empty(len(y), dtype=object)
+        for cls in srt:
+            idx = np.where(y == cls)[0]
+            idx = idx[rng.permutation(len(idx))]
+            if cls == informative2:
+                sizes = [int(round(len(idx) * w / sum(counts2))) for w in counts2]
+            else:
+                sizes = [len(idx) // 3] * 3
+            sizes[-1] = len(idx) - sum(sizes[:-1])
+            start = 0
+            for mod, s in zip(mods, sizes):
+                col[idx[start:start + s]] = mod
+                start += s
+        cols["o1"] = list(col)
+    order = rng.permutation(len(y))
+    c.X = pd.DataFrame({k: np.array(v, dtype=object)[order] for k, v in cols.items()})
+    c.X["untouched"] = rng.normal(0, 1, len(y))
+    c.y = pd.Series(y[order])
+    for k in cols:
+        if rng.random() < 0.5:
+            c.ordinal.append(k)
+            c.values_orders[k] = list(mods)
+        else:
+            c.qual.append(k)
+    c.config = {"min_freq": 0.1, "max_n_mod": 3, "min_freq_mod": None, "dropna": True, "output_dtype": gen.pick(rng, ["float", "str"]), "copy": True,
+                "sort_by": gen.pick(rng, ["tschuprowt", "cramerv"])}
+    c.meta = {"family": "one_class_only", "class_labels": [repr(v) for v in labels]}
+    return c
+
+
 def run_case(tier, seed, i):
     from AutoCarver import BinaryCarver
     rng = gen.rng_for(ID, tier, seed, i)
-    case = gen.multi_feature_case(rng, kind="multiclass", n=int(gen.pick(rng, [150, 300, 500])), n_feat=int(rng.integers(1, 5)),
-                                  with_dev=rng.random() < 0.35, allow_numeric_cat=True)
+    if rng.random() < 0.15:
+        case = one_class_only_case(rng)
+    else:
+        case = gen.multi_feature_case(rng, kind="multiclass", n=int(gen.pick(rng, [150, 300, 500])), n_feat=int(rng.integers(1, 5)),
+                                      with_dev=rng.random() < 0.35, allow_numeric_cat=True)
     cfg = case.config
     if rng.random() < 0.5:
         cfg["min_freq_mod"] = gen.pick(rng, [0.05, 0.1, 0.2, 0.25])
